@@ -154,6 +154,14 @@ func zzFamily(fam, n int) string {
 			}
 		}
 		return text + " fragment F" + zzItoa(n) + " on Node { id } fragment G" + zzItoa(n) + " on Node { id }"
+	case 12:
+		// a chain of fragments, each spreading the next one under two object fields:
+		// the document grows linearly, the response positions double per link
+		text := "{ o { ...F0 } }"
+		for i := 0; i < n; i++ {
+			text += " fragment " + zzFragName(i) + " on Obj { o { ..." + zzFragName(i+1) + " } p: o { ..." + zzFragName(i+1) + " } }"
+		}
+		return text + " fragment " + zzFragName(n) + " on Obj { x }"
 	}
 	return "{ a }"
 }
@@ -177,7 +185,7 @@ func zzC19ChainSchema() Schema {
 // ZZ_C19_growth: for each scaled family, doubling the size multiplies the cost
 // of validation+planning by at most 12 (i.e. growth is at most cubic).
 func ZZ_C19_growth() {
-	fam := zzChoice("family", 12)
+	fam := zzChoice("family", 13)
 	w := &zzWorld{}
 	schema := zzBuildSchema(w)
 	n := zzParam("N", 6)
